@@ -160,9 +160,16 @@ def run(ck):
     # ------------------------------------------------------------ order relation table (small-domain interpretation)
     tree = [s for s in mo.body if isinstance(s, ast.If)]
     tail = mo.body[mo.body.index(tree[0]):] if tree else []
-    pre = [s for s in mo.body if isinstance(s, ast.For)]
-    ok_pre = len(pre) == 1 and u(pre[0].iter) == '(order1, order2)' and 'order_type, order_value = _interpret_order(order)' in u(pre[0]) and \
-        'order_types.append(order_type)' in u(pre[0]) and 'orders.append(order_value)' in u(pre[0])
+    # the part before the decision tree, interpreted: both orders are classified by _interpret_order, in argument order
+    head = [s for s in mo.body[:mo.body.index(tree[0])] if not (isinstance(s, ast.Expr) and isinstance(s.value, ast.Constant))] if tree else []
+    ok_pre = bool(head)
+    calls_seen = []
+    try:
+        env_ = {'order1': 'A', 'order2': 'B', 'resid1': 1, 'resid2': 2, '_interpret_order': lambda o: (calls_seen.append(o) or ('type-' + o, 'value-' + o))}
+        interp.run_stmts(head, env_)
+        ok_pre = ok_pre and list(env_.get('order_types', ())) == ['type-A', 'type-B'] and list(env_.get('orders', ())) == ['value-A', 'value-B'] and calls_seen == ['A', 'B']
+    except (interp.Unsupported, interp.Returned, TypeError, ValueError, KeyError):
+        ok_pre = False
     ck.ob('DT-order-relation', mod.loc(mo), ok_pre, 'match_order classifies both orders with _interpret_order, in argument order', key='DT-order-relation|classify')
     doms = [('number', v) for v in (-2, -1, 0, 1, 2)] + [('><', v) for v in (-2, -1, 1, 2)] + [('*', v) for v in (1, 2)]
     bad = None
@@ -402,7 +409,10 @@ def run(ck):
     ck.ob('DT-attributes-match', mod.loc(atm), len(rt) == 1 and u(rt[0].value) == "bool(mods_match and attributes_match(node1, node2, ignore_keys=('order', 'replace', 'modifications')))",
           'an atom fits a link atom when the modification condition and all its other attributes match', key='DT-attributes-match|atoms_match-result')
     mods = [l for l in atm.body if isinstance(l, ast.For)]
-    ck.ob('DT-attributes-match', mod.loc(atm), len(mods) == 1 and u(mods[0].iter) == "node1.get('modifications', [])" and 'mods.extend(mod.name)' in u(mods[0]),
+    md_ = single_def(atm, 'mods')
+    comp_ok = isinstance(md_, ast.ListComp) and len(md_.generators) == 2 and not any(g.ifs for g in md_.generators) and u(md_.generators[0].iter) == "node1.get('modifications', [])" and \
+        u(md_.generators[1].iter) == u(md_.generators[0].target) + '.name' and u(md_.elt) == u(md_.generators[1].target)
+    ck.ob('DT-attributes-match', mod.loc(atm), comp_ok or (len(mods) == 1 and u(mods[0].iter) == "node1.get('modifications', [])" and 'mods.extend(mod.name)' in u(mods[0])),
           'the names of all modifications of the atom are collected', key='DT-attributes-match|collect-mods')
     # ------------------------------------------------------------ how the parser builds the conditions a link carries
     ffm = idx.mod(FF)
